@@ -53,7 +53,7 @@ REACH = [
 
 NS = 'xmlns:text="urn:oasis:names:tc:opendocument:xmlns:text:1.0" xmlns:office="urn:oasis:names:tc:opendocument:xmlns:office:1.0" xmlns:xlink="http://www.w3.org/1999/xlink" xmlns:dc="http://purl.org/dc/elements/1.1/"'
 WORDS = ["alpha", "beta", "gamma", "ab", "abab", "a", "b", "delta"]
-REGEXES = [("literal", "beta"), ("class", "[ab]+"), ("repeat", "a+"), ("alt", "alpha|gamma"), ("anchor^", "^alpha"), ("anchor$", "gamma$"), ("space", "a b"), ("literal2", "ab"), ("nomatch", "zzz"), ("lookahead", "(?=beta)"), ("word", r"\w+")]
+REGEXES = [("literal", "beta"), ("class", "[ab]+"), ("repeat", "a+"), ("alt", "alpha|gamma"), ("anchor^", "^alpha"), ("anchor$", "gamma$"), ("space", "a b"), ("literal2", "ab"), ("nomatch", "zzz"), ("ahead", r"beta(?= \w)"), ("behind", r"(?<=a )b\w*"), ("boundary", r"\bab\b"), ("lookahead", "(?=beta)"), ("word", r"\w+")]
 TX = odftext.TX
 OF = "{%s}" % odftext.OFFICE
 
@@ -270,7 +270,7 @@ def gen_op(rng, snap, k):
     mode = rng.choice(["position", "before", "after", "content"] + (["position2", "role"] if name == "set_bookmark" else []))
     if name == "insert_note":
         mode = rng.choice(["after", "none"])
-    kind, rx = rng.choice(REGEXES[:9])
+    kind, rx = rng.choice(REGEXES[:12])
     op.update(address=mode, regex=rx, rkind=kind)
     if mode in ("position", "role"):
         op["position"] = rng.choice([0, 1, len(T) // 2, max(len(T) - 1, 0), len(T)])
@@ -299,7 +299,7 @@ def gen_move_end(rng, snap, k):
     T = "".join(s for s, _o, _t in snap["tn"])
     op = {"op": name, "k": k, "target": idx}
     mode = rng.choice(["before", "after", "after", "position"])
-    kind, rx = rng.choice(REGEXES[:9])
+    kind, rx = rng.choice(REGEXES[:12])
     op.update(address=mode, regex=rx, rkind=kind)
     if mode == "position":
         op["position"] = rng.choice([0, 1, len(T) // 2, max(len(T) - 1, 0), len(T)])
